@@ -73,12 +73,14 @@ def harnesses(tier, seed, active_kf=()):
         for join in joins:
             if join and lay != 0:
                 continue
-            params = "mi: int, ns: int, al: bool, fa: int, fb: int, nl: bool"
-            pre = ["0 <= mi <= %d" % (n_mod - 1), "0 <= ns <= 4", "0 <= fa <= %d" % forms, "0 <= fb <= %d" % forms]
-            conc = ["ORDER = %r" % (order,), "mi = conc(mi, %d)" % (n_mod - 1), "ns = conc(ns, 4)", "al = cb(al)", "fa = conc(fa, %d)" % forms,
-                    "fb = conc(fb, %d)" % forms, "nl = cb(nl)", "lay = %d" % lay, "join = %d" % join]
-            out.append(mk("C19.module.lay%d.join%d" % (lay, join), params, BODY.format(conc="\n".join(conc)), covers=("rewritten",),
-                          pre=pre, timeout=600, functions=FUNCS, bounds=BOUNDS, cover_timeout=60, meta={"no_deepen": True}))
+            for mi in range(n_mod):      # one harness per v1 module (parallelism)
+                params = "ns: int, al: bool, fa: int, fb: int, nl: bool"
+                pre = ["0 <= ns <= 4", "0 <= fa <= %d" % forms, "0 <= fb <= %d" % forms]
+                conc = ["ORDER = %r" % (order,), "mi = %d" % mi, "ns = conc(ns, 4)", "al = cb(al)", "fa = conc(fa, %d)" % forms,
+                        "fb = conc(fb, %d)" % forms, "nl = cb(nl)", "lay = %d" % lay, "join = %d" % join]
+                out.append(mk("C19.module%d.lay%d.join%d" % (mi, lay, join), params, BODY.format(conc="\n".join(conc)),
+                              covers=("rewritten",), pre=pre, timeout=600, functions=FUNCS, bounds=BOUNDS, cover_timeout=60,
+                              meta={"no_deepen": True}))
     out.append(mk("C19.entries", "i: int, alias: bool", ENTRY.format(n=n_entries - 1), covers=("rewritten",),
                   pre=["0 <= i <= %d" % (n_entries - 1)], timeout=300, functions=FUNCS, bounds=BOUNDS, meta={"no_deepen": True}))
     return out
